@@ -234,10 +234,10 @@ claim('C17', 'other',
       'Lean 4 theorems C17_*: weight_only inner product = (1/D) sum cos(<x-y, w_j>) and unit norm (exact identities), the '
       'offset-average integral for weight_offset, the KernelApproxLiftingFn layout, and the stream model of the seed '
       'plumbing (RandomState instance: disjoint positions; integer seed: weights and offsets read the same positions - '
-      'finding F-rff); C17_gaussian_kernel_mean: for i.i.d. standard normal weights the mean of a feature product IS the Gaussian kernel exp(-shape |x-y|^2) (Mathlib characteristic function). Correspondence: transform vs the Lean Float evaluation of the feature-map formula given the '
+      'finding F-rff); C17_gaussian_kernel_mean: for i.i.d. standard normal weights the mean of a feature product IS the Gaussian kernel exp(-shape |x-y|^2) (Mathlib characteristic function), C17_cauchy_kernel_mean_1d: a Laplace weight gives the Cauchy kernel 1/(1+2 shape (x-y)^2) in one coordinate. Correspondence: transform vs the Lean Float evaluation of the feature-map formula given the '
       'fitted (W, b); output width; kernel -> distribution table; which draws replay RandomState(seed). Oracle: seeded '
       'fixed-size statistical test of unbiasedness against the closed-form kernels.',
-      'Not provable here and trusted: scipy samplers have the named distributions, the Fourier pairs of the Laplacian / Cauchy kernels, '
+      'Not provable here and trusted: scipy samplers have the named distributions, the Fourier pair of the Laplacian kernel and the product over coordinates for the Cauchy kernel, '
       'O(1/sqrt(D)) concentration. Known finding F-rff (integer seeds).',
       'Lean 4 proof of the exact identities + Float correspondence + statistical oracle (partial)',
       'DESIGN.md section 5 C17')
